@@ -59,7 +59,19 @@ type PluginPlan struct {
 	// InLong: Start is issued as soon as the first long block (CreatorPlan.LongAt) has been
 	// granted, so that the registration stays pending behind it (After still applies as well).
 	InLong bool `json:"in_long,omitempty"`
+	// Leave: the plugin goes away (its stub is stopped) LeaveUs microseconds after a drawn
+	// moment: 1 = as soon as its Start returned (with InLong: while its registration is still
+	// pending behind the long block), 2 = when its Synchronize handler is entered, 3 = when it
+	// receives its first CreateContainer request (it is active then). 0 = it stays.
+	Leave   int `json:"leave,omitempty"`
+	LeaveUs int `json:"leave_us,omitempty"`
 }
+
+const (
+	leavePending = 1
+	leaveInSync  = 2
+	leaveActive  = 3
+)
 
 // C08Case is a plan of concurrent creations and registrations.
 type C08Case struct {
@@ -152,6 +164,24 @@ func genC08(t *rapid.T) C08Case {
 		c.Plugins = append(c.Plugins, plug(false))
 	}
 	c.Noise = rapid.IntRange(0, 2).Draw(t, "noise")
+	// Plugins that leave: each planned plugin but the last one with probability 1/4 (the last
+	// one always stays, so that something registers after a leaver), the only one if p = 1.
+	for i := 0; i < p-1 || (p == 1 && i == 0); i++ {
+		if rapid.Bool().Draw(t, "leaves") && rapid.Bool().Draw(t, "leaves") {
+			pp := &c.Plugins[i]
+			pp.Leave = rapid.SampledFrom([]int{leavePending, leavePending, leaveInSync, leaveActive}).Draw(t, "leave")
+			pp.LeaveUs = rapid.OneOf(rapid.Just(0), rapid.IntRange(1, 2000)).Draw(t, "leave_us")
+			if pp.Leave == leavePending {
+				// keep it pending: it starts behind a block that lasts 20..60 ms
+				pp.InLong, pp.After = true, sum
+				cp := &c.Creators[rapid.IntRange(0, g-1).Draw(t, "long_creator")]
+				if cp.LongAt == 0 {
+					cp.LongAt = rapid.IntRange(1, min(3, cp.N)).Draw(t, "long_at")
+					cp.LongMs = rapid.IntRange(20, 60).Draw(t, "long_ms")
+				}
+			}
+		}
+	}
 	// a modest share of plans with long blocks (each costs about a second)
 	// (rapid's integer generators favour small values; fair coins give a dependable share)
 	long := true
@@ -172,7 +202,7 @@ func genC08(t *rapid.T) C08Case {
 		}
 		any := false
 		for i := range c.Plugins {
-			c.Plugins[i].InLong = rapid.Bool().Draw(t, "in_long")
+			c.Plugins[i].InLong = rapid.Bool().Draw(t, "in_long") || c.Plugins[i].Leave == leavePending
 			any = any || c.Plugins[i].InLong
 		}
 		if !any {
@@ -249,11 +279,16 @@ func normalize(c C08Case) C08Case {
 			pp.After = clamp(pp.After, 0, sum)
 			pp.SyncUs = clamp(pp.SyncUs, 0, 20000)
 			pp.CreateUs = clamp(pp.CreateUs, 0, 2000)
+			pp.Leave = clamp(pp.Leave, 0, 3)
+			pp.LeaveUs = clamp(pp.LeaveUs, 0, 20000)
 			out[i] = pp
 		}
 		return out
 	}
 	c.Residents, c.Plugins = fix(c.Residents), fix(c.Plugins)
+	for i := range c.Residents {
+		c.Residents[i].Leave, c.Residents[i].LeaveUs, c.Residents[i].InLong = 0, 0, false
+	}
 	c.Noise = clamp(c.Noise, 0, 4)
 	if c.ReqTimeoutMs != 0 {
 		c.ReqTimeoutMs = clamp(c.ReqTimeoutMs, 100, 10000)
@@ -346,6 +381,8 @@ type PlugHist struct {
 	Both      []string `json:"both,omitempty"`
 	Dup       []string `json:"dup,omitempty"`
 	Closed    bool     `json:"closed,omitempty"`
+	Leave     int      `json:"leave,omitempty"`
+	TLeft     int64    `json:"t_left,omitempty"`
 }
 
 // History goes into the replay file of a failing case.
@@ -382,6 +419,8 @@ type plug struct {
 	closed    bool
 
 	launched atomic.Bool
+	leaving  atomic.Bool // the plan made it go away (set before the stub is stopped)
+	tLeft    atomic.Int64
 	tStart   int64
 	tStarted int64
 	startErr string
@@ -417,7 +456,7 @@ type exec struct {
 	progress      atomic.Int64
 	stopNoise     atomic.Bool
 	reqTimeout    time.Duration
-	syncFail      string       // a registration was failed by the runtime although its synchronization was quick (under mu)
+	quickFails    []string     // registrations failed by the runtime although their synchronization was quick (under mu)
 	longStarted   atomic.Bool  // the first long block has been granted
 	extraUnblocks atomic.Int64 // Unblock calls beyond the first one of a block
 	crecs         [][]Creation
@@ -520,8 +559,8 @@ func (x *exec) syncFn(ctx context.Context, cb adaptation.SyncCB) error {
 			// half the request timeout and still failed the registration. Judged under "once the
 			// last block is released pending registrations complete" (re-execution protocol).
 			x.mu.Lock()
-			if x.syncFail == "" {
-				x.syncFail = fmt.Sprintf("the registration of plugin %q (pending from %d µs, sync lock granted at %d µs) was failed by the runtime: %v — although the sync callback took only %v of the %v request timeout (Synchronize handler invocations: %d)", who, x.startedAt(who), reg.TEntry, err, took.Round(10*time.Microsecond), x.reqTimeout, reg.Handlers)
+			if len(x.quickFails) < 16 {
+				x.quickFails = append(x.quickFails, fmt.Sprintf("the registration of plugin %q (pending from %d µs, sync lock granted at %d µs) was failed by the runtime: %v — although the sync callback took only %v of the %v request timeout (Synchronize handler invocations: %d)", who, x.startedAt(who), reg.TEntry, err, took.Round(10*time.Microsecond), x.reqTimeout, reg.Handlers))
 			}
 			x.mu.Unlock()
 		} else {
@@ -549,6 +588,9 @@ func (x *exec) newPlug(i int, pp PluginPlan, resident bool) *plug {
 		// A reading of the block count only counts while the runtime's SyncFn is in progress
 		// (before and after the reading): a handler that runs after the runtime gave up on the
 		// request (request timeout on an overloaded machine) says nothing about the sync lock.
+		if pp.Leave == leaveInSync {
+			pl.leaveAfter(x)
+		}
 		in0 := x.inSync.Load() > 0
 		t0, h0 := x.now(), x.held.Load()
 		in0 = in0 && x.inSync.Load() > 0
@@ -562,7 +604,7 @@ func (x *exec) newPlug(i int, pp PluginPlan, resident bool) *plug {
 		in1 := x.inSync.Load() > 0
 		t1, h1 := x.now(), x.held.Load()
 		in1 = in1 && x.inSync.Load() > 0
-		if !in0 || !in1 {
+		if (!in0 || !in1) && pp.Leave == 0 { // (a plugin that leaves makes the runtime give up on purpose)
 			x.infraf("plugin %s: its Synchronize handler ran (partly) outside the runtime's SyncFn call", pl.name)
 		}
 		if !in0 {
@@ -587,7 +629,11 @@ func (x *exec) newPlug(i int, pp PluginPlan, resident bool) *plug {
 	p.OnCreate = func(_ context.Context, _ *api.PodSandbox, c *api.Container) (*api.ContainerAdjustment, []*api.ContainerUpdate, error) {
 		pl.mu.Lock()
 		pl.created[c.GetId()]++
+		first := len(pl.created) == 1
 		pl.mu.Unlock()
+		if first && pp.Leave == leaveActive {
+			pl.leaveAfter(x)
+		}
 		pause(orNone(pp.CreateUs))
 		return nil, nil, nil
 	}
@@ -606,7 +652,7 @@ func (x *exec) newPlug(i int, pp PluginPlan, resident bool) *plug {
 		x.mu.Lock()
 		tearing := x.tearing
 		x.mu.Unlock()
-		if !tearing {
+		if !tearing && !pl.leaving.Load() {
 			pl.mu.Lock()
 			pl.closed = true
 			pl.mu.Unlock()
@@ -624,8 +670,22 @@ func orNone(us int) int {
 	return us
 }
 
+// leave makes the plugin go away: from then on nothing is owed to it.
+func (pl *plug) leave(x *exec) {
+	if pl.leaving.CompareAndSwap(false, true) {
+		pl.tLeft.Store(x.now())
+		pl.p.Stub.Stop()
+	}
+}
+
+func (pl *plug) leaveAfter(x *exec) {
+	go func() {
+		pause(orNone(pl.plan.LeaveUs))
+		pl.leave(x)
+	}()
+}
+
 func (pl *plug) start(x *exec) {
-	defer close(pl.started)
 	pl.tStart = x.now()
 	err := pl.p.NewStub(x.r.Socket, nil)
 	if err == nil {
@@ -638,6 +698,11 @@ func (pl *plug) start(x *exec) {
 		if !pl.resident {
 			x.finished.Add(1) // never reaches SyncFn: do not keep the creators waiting for it
 		}
+	}
+	close(pl.started)
+	if err == nil && pl.plan.Leave == leavePending {
+		pause(orNone(pl.plan.LeaveUs))
+		pl.leave(x)
 	}
 }
 
@@ -669,6 +734,16 @@ func (x *exec) waitActive(pls []*plug, deadline time.Time) []*plug {
 		}
 		time.Sleep(500 * time.Microsecond)
 	}
+}
+
+func (x *exec) leftCount() int {
+	n := 0
+	for _, pl := range x.plugs {
+		if pl.leaving.Load() {
+			n++
+		}
+	}
+	return n
 }
 
 // startedAt returns when the named plugin's Start returned (µs), or -1.
@@ -717,7 +792,7 @@ func (x *exec) unsynced() string {
 	}
 	x.mu.Unlock()
 	for _, pl := range x.plugs {
-		if !pl.resident && pl.launched.Load() && !synced[pl.name] {
+		if !pl.resident && pl.launched.Load() && !synced[pl.name] && pl.plan.Leave == 0 {
 			select {
 			case <-pl.started:
 				if pl.startErr != "" {
@@ -1006,7 +1081,7 @@ func execute(c C08Case, attempt int) result {
 				if p := x.progress.Load(); p != last {
 					last, lastT = p, time.Now()
 				} else if idle := time.Since(lastT); idle > stuckBound ||
-					(idle > activeBound && x.held.Load() == 0 && x.unsynced() != "") {
+					(idle > activeBound && x.held.Load() == 0 && (x.unsynced() != "" || x.inSync.Load() == 0)) {
 					// No creation has finished for `idle`: no block was released in that time, and with
 					// held == 0 none is held, so no block has been held for `idle`. With a registration
 					// still pending after activeBound the time clause has failed; otherwise the flat
@@ -1024,12 +1099,32 @@ func execute(c C08Case, attempt int) result {
 	// --- time clause: once the last block is released pending registrations complete --------
 	var pending []*plug
 	for _, pl := range x.plugs {
-		if !pl.resident && pl.launched.Load() {
+		if !pl.resident && pl.launched.Load() && pl.plan.Leave == 0 {
 			pending = append(pending, pl)
 		}
 	}
+	// A plugin that went away before or during its synchronization accounts for one failed
+	// synchronization (nothing is owed to it); any further one is the runtime's doing.
 	x.mu.Lock()
-	syncFail := x.syncFail
+	okReg := map[string]bool{}
+	for _, rg := range x.regs {
+		if rg.Err == "" && rg.TReturn != 0 {
+			okReg[rg.Plugin] = true
+		}
+	}
+	gone := 0
+	for _, pl := range x.plugs {
+		if pl.leaving.Load() && !okReg[pl.name] {
+			gone++
+		}
+	}
+	syncFail := ""
+	if len(x.quickFails) > gone {
+		syncFail = x.quickFails[gone]
+		if gone > 0 {
+			syncFail += fmt.Sprintf(" (%d earlier failure(s) are attributed to the %d plugin(s) that left)", gone, gone)
+		}
+	}
 	x.mu.Unlock()
 	if timeFail == "" && syncFail != "" {
 		// that registration will never complete: no point in waiting activeBound for it
@@ -1044,6 +1139,11 @@ func execute(c C08Case, attempt int) result {
 			// been synchronized (its SyncFn call has not returned) has certainly not completed.
 			if name := x.unsynced(); x.held.Load() == 0 && name != "" {
 				timeFail = fmt.Sprintf("no sync block has been held for %v (every creator is waiting inside BlockPluginSync) and the pending registration of plugin %s still has not been synchronized", stuckFor, name)
+			} else if x.held.Load() == 0 && x.inSync.Load() == 0 {
+				// Sync blocks only ever wait for a registration in its exclusive section; with no block
+				// held and no plugin being synchronized that section must end ("pending registrations
+				// complete"), so BlockPluginSync must return.
+				timeFail = fmt.Sprintf("no sync block has been held and no plugin has been synchronized for %v, yet no creator's BlockPluginSync has returned (%d plugin(s) left earlier)", stuckFor, x.leftCount())
 			}
 		} else {
 			var ok []*plug
@@ -1111,7 +1211,11 @@ func execute(c C08Case, attempt int) result {
 		pl.mu.Lock()
 		ph := PlugHist{Name: pl.name, Resident: pl.resident,
 			Active: pl.probes > 0, TActive: pl.tActive, SyncCalls: pl.syncCalls, SnapN: len(pl.snap), CreatedN: len(pl.created), Closed: pl.closed}
-		if ph.Active && judgeXOR {
+		ph.Leave = pl.plan.Leave
+		if pl.leaving.Load() {
+			ph.TLeft = pl.tLeft.Load()
+		}
+		if ph.Active && judgeXOR && pl.plan.Leave == 0 {
 			for _, id := range ids {
 				s, cr := pl.snap[id], pl.created[id]
 				switch {
@@ -1213,6 +1317,32 @@ func execute(c C08Case, attempt int) result {
 	}
 
 	classes := classesOf(c, regs, nRes, overlapped, totalOverlap)
+	for _, pl := range x.plugs {
+		if pl.plan.Leave == 0 {
+			continue
+		}
+		kind := [...]string{"", "pending", "in-sync", "active"}[pl.plan.Leave]
+		if !pl.leaving.Load() {
+			classes = append(classes, "leave:"+kind+",never-left")
+			continue
+		}
+		classes = append(classes, "leave:"+kind)
+		if st := x.startedAt(pl.name); pl.plan.Leave == leavePending && st >= 0 && !stuck {
+			// configured (Start returned) and gone while a block granted before that was still held
+			left := pl.tLeft.Load()
+			behind := false
+			for _, cr := range x.crecs {
+				for _, rec := range cr {
+					if rec.LongMs > 0 && rec.TAcq < st && rec.TRel > left+200 {
+						behind = true
+					}
+				}
+			}
+			if behind {
+				classes = append(classes, "leave:pending,behind-block")
+			}
+		}
+	}
 	if c.ReqTimeoutMs > 0 {
 		classes = append(classes, "long-hold")
 		over := 0
